@@ -276,3 +276,44 @@ def c08_monotone(ctx, var):
             ctx.check('monotone', r2 < r1, info={'var': var})
     finally:
         cond.math = old
+
+
+def _cfg_bare_alt(tier):
+    from harness.common import DIST_UNITS
+    return [{'unit': u} for u in (['Yard', 'Meter', 'Foot'] if tier == 'quick' else DIST_UNITS[:9])]
+
+
+@harness('C08.bare_altitude', 'C08', configs=_cfg_bare_alt, functions=FUNCS, engine_opts={'div_check': False, 'pin_check': True},
+         must_reach=['check:standard_station_from_a_bare_altitude'],
+         bounds='Atmo.icao / Atmo.standard given a BARE number as altitude under each preferred distance unit (quick: yd, m, ft): the station altitude, the ISA temperature and the '
+                'barometric base are those of that number of preferred units (all altitudes in the troposphere)',
+         stubs=['pow/sqrt/exp summarised'])
+def c08_bare_altitude(ctx, unit):
+    from harness.common import with_preferred
+    p = pybc()
+    U = getattr(p.Unit, unit)
+    n = ctx.real('altitude_number')
+    h_ft = n * (si.LENGTH_M[unit] / si.FOOT)
+    ctx.assume((h_ft >= -1400) & (h_ft <= 36000))
+    import py_ballisticcalc.conditions as cond
+    seen = []
+    real_pow = cond.math.pow
+
+    class _Rec:
+        def __getattr__(self, k):
+            return getattr(M, k)
+
+        def pow(self, b, e):
+            seen.append((b, e))
+            return real_pow(b, e)
+    old = cond.math
+    cond.math = _Rec()
+    try:
+        with with_preferred(distance=U):
+            a = p.Atmo.icao(n)
+    finally:
+        cond.math = old
+    ctx.check_eq('standard_station_from_a_bare_altitude', a.altitude >> p.Distance.Foot, h_ft, rel=1e-6, info={'field': 'altitude'})
+    ctx.check_eq('standard_station_from_a_bare_altitude', a.temperature >> p.Temperature.Kelvin, T0 + LAPSE * (h_ft * FOOT), rel=1e-5, info={'field': 'temperature'})
+    ctx.check('one_pow', len(seen) >= 1)
+    ctx.check_eq('standard_station_from_a_bare_altitude', seen[0][0], 1 + LAPSE * (h_ft * FOOT) / T0, rel=1e-6, info={'field': 'barometric base'})
